@@ -39,6 +39,24 @@ func (c *Ctx) buildVC(fn *ssa.Function, con *Contract) *Unit {
 		args = append(args, v)
 		params[p.Name()] = v
 	}
+	// a closure verified on its own: captured variables are arbitrary allocated heap objects
+	var binds []Val
+	for _, fv := range fn.FreeVars {
+		n := em.fresh("fv_"+fv.Name(), "Int")
+		em.assert(u.valInvDeep(n, fv.Type(), st))
+		em.assert(fmt.Sprintf("(> %s 0)", n))
+		v := Val{T: n, Ty: fv.Type()}
+		binds = append(binds, v)
+		params[fv.Name()] = v
+	}
+	for i := range binds {
+		for j := 0; j < i; j++ {
+			if types.Identical(binds[i].Ty, binds[j].Ty) {
+				em.assert(fmt.Sprintf("(not (= %s %s))", binds[i].T, binds[j].T))
+			}
+		}
+	}
+	u.topBinds = binds
 	u.params = params
 	entry := st.clone()
 	u.entry = entry
@@ -88,6 +106,7 @@ func (c *Ctx) buildVC(fn *ssa.Function, con *Contract) *Unit {
 			}
 		}
 	}
+	u.pendingBinds = u.topBinds
 	_, out := u.runFunc(fn, args, st, nil, "", true)
 	// exit reachability
 	u.em.obls = append(u.em.obls, &Obligation{Name: u.unitName() + "#vacuity#exit", Kind: "vacuity", At: len(em.lines), PC: out.pc, Goal: "false", Func: u.unitName(), Unit: u})
@@ -97,7 +116,6 @@ func (c *Ctx) buildVC(fn *ssa.Function, con *Contract) *Unit {
 	}
 	return u
 }
-
 
 // frameObligations: every pre-existing object outside the assigns clause is unchanged.
 func (u *Unit) frameObligations(f *Frame, out, entry *State, con *Contract, params map[string]Val) {
